@@ -167,7 +167,7 @@ func (h *verifWHist) stop() {
 
 // ------------------------------------------------------------------ world generation
 
-var verifWLevels = []int{0, 0, 1, 1, 2, 3, 5, 10, 15, 62, 63, 64, 100, 203, 204, 205, 206, 207, 254}
+var verifWLevels = []int{0, 0, 1, 1, 2, 3, 5, 10, 15, 62, 63, 64, 100, 203, 204, 205, 206, 207, 254, 255}
 var verifWAgeSlots = []int{0, 1, 1, 2, 2, 3, 4, 5, 6, 10, 11, 15, 16, 62, 63, 64, 65, 100, 101, 204, 205, 206, 207, 208, 254, 255, 300}
 
 func (h *verifWHist) newBlock(height int32, ageSlot int, plus bool) *verifWBlock {
@@ -210,7 +210,7 @@ func (h *verifWHist) newToken(shape string) int {
 	r := h.r
 	syms := []string{"USDT", "WETH", "ALPH", "X", "ABCDEFGHIJKLMNOPQRSTUVWXYZ012345", "tok-" + strconv.Itoa(id)}
 	names := []string{"Tether USD", "Wrapped Ether", "Alephium", "N", "name " + strconv.Itoa(id)}
-	mc := &verifWMc{dec: []int{0, 6, 8, 18, 77, 254}[r.below(6)], sym: syms[r.below(len(syms))], name: names[r.below(len(names))], shape: shape}
+	mc := &verifWMc{dec: []int{0, 6, 8, 18, 77, 254, 255}[r.below(7)], sym: syms[r.below(len(syms))], name: names[r.below(len(names))], shape: shape}
 	symB, nameB := []byte(mc.sym), []byte(mc.name)
 	if r.chance(1, 3) {
 		symB = verifWPad32(mc.sym, r.chance(1, 4)) // the token contract may return NUL-padded strings
@@ -329,7 +329,7 @@ func (h *verifWHist) newEvent(b *verifWBlock, tx *verifWTx, contract int, class 
 		}
 		switch r.below(10) {
 		case 0:
-			dec = (dec + 1 + r.below(200)) % 255
+			dec = (dec + 1 + r.below(200)) % 256
 		case 1:
 			sym = sym + "x"
 			if len(sym) > 32 {
@@ -565,6 +565,10 @@ func (h *verifWHist) stepPoll(ps *verifWPollScript) {
 	if ps.spin {
 		res = "spin"
 	}
+	if res != "batch" && res != "idle" {
+		// the watcher instance is finished; fetchEvents may still issue requests until it notices (it is not judged any more)
+		h.sim.quiet = true
+	}
 	count, served, nreq, errHit, newFrom := ps.count, ps.served, ps.nreq, ps.errHit, h.sim.from
 	h.sim.mu.Unlock()
 	buids := []int{}
@@ -605,7 +609,11 @@ func (h *verifWHist) stepPoll(ps *verifWPollScript) {
 		h.die()
 		return
 	case res == "spin":
-		h.flag("C09", "spin", fmt.Sprintf("%s: more than %d page requests in one poll (last start=%d), no batch delivered", hist, verifWSpinLimit, served[len(served)-1].start))
+		key := "spin"
+		if count < fromPrev {
+			key = "spin-count-below-fromIndex"
+		}
+		h.flag("C09", key, fmt.Sprintf("%s: more than %d page requests in one poll (last start=%d), no batch delivered", hist, verifWSpinLimit, served[len(served)-1].start))
 		h.die()
 		return
 	case res == "fatal":
@@ -948,7 +956,11 @@ func (h *verifWHist) stepReobs(tx *verifWTx, errAt map[string]int, shortHash boo
 			h.flag("C08", "reobs-height", desc+" before height+level <= current height")
 		}
 		if e.blk.ts+h.gtDuration(e) > hi+1500 {
-			h.flag("C08", "reobs-wallclock", desc+fmt.Sprintf(" %d ms before the required hold time elapsed", e.blk.ts+h.gtDuration(e)-hi))
+			key := "reobs-wallclock"
+			if e.contract != 0 || e.sender != 1 || !e.blk.main || sblk != e.blk {
+				key = "reobs-wallclock-of-unjustified-event" // the event should not have been forwarded for another reason as well
+			}
+			h.flag("C08", key, desc+fmt.Sprintf(" %d ms before the required hold time elapsed", e.blk.ts+h.gtDuration(e)-hi))
 		}
 		if e.kind == "attest" && !h.gtAttestValid(e) {
 			h.flag("C08", "reobs-attest", desc+" although the attested metadata differs from the token contract's answer")
